@@ -41,7 +41,7 @@ NOT_DECIDED = ["'different keys yield different runs': an inequality between res
 sd = jax.ShapeDtypeStruct
 f32 = jnp.float32
 OBS = Box(-jnp.ones((2,)), jnp.ones((2,)))
-PKG = "/repo/src/lerax"
+PKG = os.path.join(os.environ.get("LVC_REPO", "/repo"), "src", "lerax")      # LVC_REPO: developer tools only (a scratch worktree); registered commands check /repo
 
 
 def _is_set_expr(e):
